@@ -18,7 +18,8 @@ REF = {"o1": "o2", "o2": "o2", "o3": "o4", "o4": "o1"}
 
 def setup(args):
     gen = vorm.interface()
-    objs = {n: VA(name=n, a=a, b=b, w=W[n]) for n, (a, b) in A.items()}
+    LABEL = {"o1": "C1", "o2": "C", "o3": "1", "o4": ""}      # proper substrings of "C1" and the empty string
+    objs = {n: VA(name=n, a=a, b=b, w=W[n], label=LABEL[n]) for n, (a, b) in A.items()}
     for n, o in objs.items():
         o.one = objs[REF[n]]                                   # the reference as a self-referential relationship
         o.other = VC(tag=A[REF[n]][0], tag2=A[REF[n]][1])      # ... and as a relationship to another table carrying the same values
@@ -118,7 +119,42 @@ def chains(case):
     return {"chains": out}
 
 
+STR_ATOMS = {
+    "in1": lambda x: in_(x.label, ["C1"]), "in1t": lambda x: in_(x.label, ("C1",)), "in2": lambda x: in_(x.label, ["C1", "C"]),
+    "inC": lambda x: in_(x.label, ["C"]), "inE": lambda x: in_(x.label, [""]), "eqC": lambda x: x.label == "C",
+    "neC1": lambda x: x.label != "C1", "c1": lambda x: contains(["C1"], x.label), "a0": lambda x: x.a == 0, "b1": lambda x: x.b >= 1,
+}
+
+
+def strings(case):
+    """Membership of a string attribute in literal collections (also of one element). Oracle: in-memory evaluation."""
+    objs = STATE["objs"]
+
+    def q(dom):
+        x = let(VA, dom, name="x")
+        parts = [STR_ATOMS[a](x) for a in case["satoms"]]
+        cond = (and_ if case["op"] == "and" else or_)(*parts) if len(parts) > 1 else parts[0]
+        return an(entity(x, cond))
+    out = {}
+    try:
+        out["memory"] = sorted(r.name for r in q(list(objs.values())).evaluate())
+    except Exception as ex:
+        out["memory_error"] = type(ex).__name__
+    with Session(STATE["engine"]) as s:
+        try:
+            t = eql_to_sql(q([]), s)
+            out["sql"] = sorted(r.name for r in t.evaluate())
+            out["sql_text"] = str(t.sql_query)[-300:]
+        except EQLTranslationError as ex:
+            out["rejected"] = type(ex).__name__
+        except Exception as ex:
+            out["sql_error"] = f"{type(ex).__name__}: {str(ex)[:160]}"
+    return {"chains": out}
+
+
 def handle(case):
+    if "satoms" in case:
+        return strings(case)
     if "atoms" in case:
         return chains(case)
     objs = STATE["objs"]
